@@ -325,7 +325,13 @@ impl<'a, 'tcx> BodyCx<'a, 'tcx> {
         let tcx = self.tcx;
         match rv {
             Rvalue::Use(op, ..) => format!("{{\"k\":\"use\",\"op\":{}}}", self.operand(op)),
-            Rvalue::Repeat(op, _) => format!("{{\"k\":\"repeat\",\"op\":{}}}", self.operand(op)),
+            Rvalue::Repeat(op, ct) => {
+                let n = match ct.try_to_target_usize(tcx) {
+                    Some(n) => format!("{}", n),
+                    None => "null".to_string(),
+                };
+                format!("{{\"k\":\"repeat\",\"op\":{},\"n\":{}}}", self.operand(op), n)
+            }
             Rvalue::Ref(_, bk, p) => {
                 let b = match bk {
                     BorrowKind::Shared => "shared",
